@@ -239,6 +239,8 @@ func TestVerifReplayConverge(t *testing.T) {
 		"intent gives up the presence container with its mandatory leaves":                {{name: "A", prio: 10, json: bgpFull}, {name: "A", prio: 10, json: `{"network-instance":[{"name":"default"}]}`}},
 		"owner of a list entry with a mandatory leaf is deleted, another entry stays":     {{name: "A", prio: 10, json: dkV1}, {name: "B", prio: 20, json: `{"doublekey":[{"key1":"k9","key2":"k9","mandato":"m"}]}`}, {name: "A", prio: 10, json: ""}},
 		"an entry with a mandatory leaf dropped by a new revision, a sibling entry stays": {{name: "A", prio: 10, json: `{"doublekey":[{"key1":"k1","key2":"k2","mandato":"m"},{"key1":"k3","key2":"k4","mandato":"n"}]}`}, {name: "A", prio: 10, json: `{"doublekey":[{"key1":"k1","key2":"k2","mandato":"m"}]}`}},
+		"ruling intent deleted, the other case was shadowed from the start":               {{name: "O1", prio: 5, json: case1}, {name: "O2", prio: 10, json: case2}, {name: "O1", prio: 5, json: ""}},
+		"ruling intent weakened below the holder of the other case":                       {{name: "O1", prio: 5, json: case1}, {name: "O2", prio: 10, json: case2}, {name: "O1", prio: 20, json: case1}},
 		"deleted intent cancelled":                                                        {{name: "A", prio: 10, json: ifTwo}, {name: "A", prio: 10, json: "", cancel: true}},
 	}
 	// several intents in one transaction: what the intended store holds of any of them is a former version. The order in
@@ -491,8 +493,11 @@ func TestVerifReplayConverge(t *testing.T) {
 			sort.Strings(diffs)
 			if len(diffs) > 0 {
 				clause, fn := "device_holds_the_merge", fnLL
-				if hname == "ruling intent with the other case is deleted" && len(diffs) == 1 && strings.HasPrefix(diffs[0], "missing /choices/case2") {
+				if (hname == "ruling intent with the other case is deleted" || hname == "ruling intent deleted, the other case was shadowed from the start") && len(diffs) == 1 && strings.HasPrefix(diffs[0], "missing /choices/case2") {
 					clause += ".known" // recorded finding: the other intents' nodes of a case that becomes active are not loaded into the tree
+				}
+				if hname == "ruling intent weakened below the holder of the other case" && len(diffs) == 2 && strings.HasPrefix(diffs[0], "missing /choices/case2") && strings.HasPrefix(diffs[1], "stale /choices/case1") {
+					clause += ".known" // the same finding: the case that wins now is not in the tree, so nothing is sent and nothing is deleted
 				}
 				if hname == "ruling intent switches the case, a weaker intent holds the old case" && len(diffs) == 1 && diffs[0] == "stale /choices/case1/log=true" {
 					clause += ".known" // recorded finding: the old case is not recognised as the former ruler when a weaker intent holds it too
